@@ -12,7 +12,7 @@ MANIFEST = {
              "payload (so equal-but-not-identical values are in scope); the sought value is None or another box; one "
              "vertex may be of a falsy Vertex subclass. Each search must return exactly the first vertex of the real "
              "corresponding traversal's list (same start, same universe) that has the attribute with an == value, else None.",
-    "note": "Bounds: 3 vertices, 2 links fully symbolic (3 DirectedEdges with interchangeable links ordered), defaults "
+    "note": "Bounds: 3 vertices, 2 links fully symbolic (3 DirectedEdges with interchangeable links ordered; one four-vertex configuration anchored at the start), defaults "
             "FORWARD/ERROR as the searches hard-wire them. The oracle uses the real traversal list, whose own "
             "correctness is C06/C07. Searches whose traversal raises are not compared. Trusted: pysym (validated per "
             "path on CPython), z3.",
